@@ -80,15 +80,15 @@ Section Refine.
 
   (* ---- index_of_vertex ------------------------------------------------------------------------------ *)
   Lemma find_refines_from (l : list (vec3 R)) pt : forall i,
-    match nonzero_from i (map (fun x => vclose8 ROps x pt) l) with j :: _ => Some j | [] => None end
+    match nonzero_from i (map (fun x => vclose ROps (atol8 ROps) x pt) l) with j :: _ => Some j | [] => None end
     = spec_find_from ROps i l pt.
   Proof.
     induction l as [|x r IH]; intros i; cbn [map nonzero_from spec_find_from]; [reflexivity|].
-    destruct (vclose8 ROps x pt); [reflexivity|apply IH].
+    unfold vclose8. destruct (vclose ROps (atol8 ROps) x pt); [reflexivity|apply IH].
   Qed.
   Lemma index_of_refines (p : polyline R) pt : c_index_of ROps p pt = s_index_of ROps p pt.
   Proof.
-    unfold c_index_of, s_index_of, flatnonzero. rewrite <- find_refines_from.
+    unfold c_index_of, c_index_of_at, s_index_of, flatnonzero. rewrite <- find_refines_from.
     destruct (nonzero_from 0 _); reflexivity.
   Qed.
   (* the specification returns the lowest matching index *)
